@@ -991,8 +991,14 @@ def stream_codec(ck, ask, pool, scratch):
         return f"{'true' if i.offset_present else 'false'} {i.constraints} {i.flags} {hexs(i.isk_public_key_data)} {hexs(i.user_data)} {hexs(i.signature)}"
 
     def dump21(p):
+        """observables of a parsed block (it may be inconsistent when the input was damaged): the re-exported root key record, the RKTH
+        it reports, the ISK certificate fields"""
         mj, mn = p.header.format_version.split(".")
-        return f"{mj} {mn} | {dump_rkr(p.root_key_record)} | " + (dump_isk(p.isk_certificate) if p.isk_certificate else "none")
+        def ch(fn):
+            r = pyres(fn)
+            return hx(r[1]) if r[0] == "ok" else r[0]
+        return (f"{mj} {mn} | {ch(p.root_key_record.export)} {ch(lambda: p.rkth)} | "
+                + (dump_isk(p.isk_certificate) if p.isk_certificate else "none"))
 
     for _ in range(ck.budget(40, 700)):
         bits = rng.choice([256, 384])
@@ -1037,7 +1043,7 @@ def stream_codec(ck, ask, pool, scratch):
             pr = pyres(CertBlockV21.parse, d)
             real = ("ok:" + sdump(dump21, pr[1])) if pr[0] == "ok" else pr[0]
             s.note(("cb21p", tuple(k.id for k in keys), used, name, len(d)), cls="v21-parse-" + name)
-            ask(f"cb21_parse {hexs(d)}", lambda a, real=real, name=name, d=d: s.compare({"mutation": name, "data": d}, real, _point_ok(a, real), "CertBlockV21.parse differs from the model"))
+            ask(f"cb21_parse_obs {hexs(d)}", lambda a, real=real, name=name, d=d: s.compare({"mutation": name, "data": d}, real, _point_ok(a, real), "CertBlockV21.parse differs from the model"))
             if name in ("intact", "trail"):
                 s.expect(pr[0] == "ok" and pyres(pr[1].export) == ("ok", data), {"mutation": name, "data": d}, "CertBlockV21 does not survive export -> parse -> export")
             else:
